@@ -1,19 +1,50 @@
 """C38 — blocks proposed by the node pass the node's own validation.
 
-Scenarios come from specs/chain/Ledger.tla (chains with forks and reorganisations; menu transactions
-— valid, conflicting, chained, immature, locked — submitted to the pool through Chain.ValidateTx). After
-the last call of each replayed path the node, configured as validator 1 of 2, builds and signs a block
-for its own slot with proposal.NewBlockTemplate and the block is fed back through ProcessBlock: it must
-be accepted (not an orphan, no error) and become the best block. Heights 15 and 17 make the proposed
-block pay the previous epoch's rewards (fees and subsidy accumulated on that branch).
+Part 1 (chains and menu pools). Scenarios come from specs/chain/Ledger.tla (chains with forks and
+reorganisations; menu transactions — valid, conflicting, chained, immature, locked — submitted to the pool
+through Chain.ValidateTx). After the last call of each replayed path the node, configured as validator 1 of 2,
+builds and signs a block for its own slot with proposal.NewBlockTemplate and the block is fed back through
+ProcessBlock: it must be accepted (not an orphan, no error) and become the best block. Heights 15 and 17 make
+the proposed block pay the previous epoch's rewards (fees and subsidy accumulated on that branch).
 Paths in which a stored branch does not apply are skipped (recorded finding of C11).
+
+Part 2 (gas-heavy, batched, chained and conflicting pools; checks/c38_lib.py). specs/chain/Proposer.tla states
+what a template built from a pool may contain (any selection that applies to the ledger of the best block within
+the block gas budget; never a child without its parent, both sides of a double spend, or more gas than the
+budget); ProposerGen.tla enumerates pools of 50 transactions around the budget (32..36 transactions of ~293,000
+gas, 34 fill a block) with a chained pair / chain of three / fork / conflicting pair placed relative to the
+transaction that no longer fits and to the proposer's batches of 16. harness/cmd/c38 loads every pool into a real
+mempool with real transactions, the node proposes at a mid-epoch or reward-paying height and is given its own
+block back; ProposerJudge.tla judges the recorded template.
 """
 import chain_lib
+import c38_lib
 
 
 def run(ctx):
-    parts = [chain_lib.run_ledger(ctx, mode="propose")]
-    chain_lib.finish_chain(ctx, parts,
-        rule="every k-th transition of Ledger.tla (configs and strides listed), replayed with its path; then NewBlockTemplate + ProcessBlock",
-        assumptions=["no wallet (default coinbase program)", "pool content is whatever the real pool admitted from the submissions",
-                     "gas-heavy transactions are not part of the menu"])
+    parts = [chain_lib.run_ledger(ctx, mode="propose"), c38_lib.run_heavy(ctx)]
+    heavy = parts[1]
+    samples = []
+    for p in parts:
+        samples += p["samples"][:2]
+    if not samples:
+        samples = [{"note": "no sample emitted by the replay workers"}]
+    ctx.finish("model_checking", dict(
+        states=sum(p["states"] for p in parts), transitions=sum(p["transitions"] for p in parts),
+        traces_validated_against_impl=sum(p["cases"] for p in parts), samples=samples[:4],
+        node_calls_replayed=sum(p["calls"] for p in parts),
+        distinct_paths=sum(p["distinct"] for p in parts),
+        divergences_attributed_to_other_properties=sum(p["other"] for p in parts),
+        casper_configs=[c for p in parts for c in p.get("configs", [])],
+        ledger_paths_replayed=parts[0]["cases"],
+        heavy_pools_replayed=heavy["cases"], heavy_pools=heavy["counters"], judge_controls=heavy["controls"],
+        exhaustive=True,
+        rule="part 1: every k-th transition of Ledger.tla (configs and strides listed), replayed with its path; then NewBlockTemplate + "
+             "ProcessBlock. part 2: every pool exported by ProposerGen.tla loaded into a real mempool, NewBlockTemplate + ProcessBlock, "
+             "the template judged by ProposerJudge.tla"),
+        assumptions=["no wallet (default coinbase program)",
+                     "part 1: pool content is whatever the real pool admitted from the submissions",
+                     "part 2: one input and one spendable output per pool transaction; a child arrives after its parent (no orphan "
+                     "promotion); gas is storage gas (serialized size) of OP_TRUE spends; gas scale 1 unit = 285,715..293,976 gas "
+                     "(checked on every transaction built)",
+                     "the proposer's time limits are never reached (warn 1 h, critical 2 h)"])
